@@ -792,6 +792,10 @@ def gen_dash(rng):
             for op in b:
                 if op[0] == 2 and len(op) == 8:
                     del op[6:]               # no Group field on receipts here
+                if op[0] == 1:
+                    op[5], op[6] = 0, 0      # ... and no groups, not even empty ones: when a group times out, a finished
+                                             # child whose SOURCE name contains '-' makes getTimeoutIBTPsMap fail
+                                             # (strings.Split(id, "-")[1] is not a service id) and the block announces nothing
     return finish_history(h)
 
 
